@@ -55,6 +55,9 @@ func genCfg(rng *hx.Rng, prop string, meta *hx.Meta) cfg {
 		}
 		c.Writers = append(c.Writers, writerSpec{Late: true, Calls: []callSpec{{Kind: rng.Intn(5), Size: 8}, {Kind: rng.Intn(5), Size: 8}}})
 		c.Parent = rng.Chance(20)
+		if rng.Chance(25) {
+			c.QCap = 0 // synchronous channel: closers overlap inside transport.Close, late writers start after ANY Close call returned
+		}
 	default: // C01 C10 C18: mixes
 		if rng.Chance(40) {
 			c.Closers = []int{[]int{0, 5}[rng.Intn(2)]}
@@ -122,6 +125,29 @@ func closerFirstStrat(rng *hx.Rng) func(int, []*sched.Thread, *sched.Thread) int
 				if t.Name == "closer" && strings.HasPrefix(t.Point, "c.") {
 					return k
 				}
+			}
+		}
+		return rng.Intn(len(en))
+	}
+}
+
+// the sender is stalled (never scheduled) until the closers have polled k times in a row, then everything runs
+// at random: a slow transport that recovers.  Every closer gets its turn while the stall lasts.
+func stallStrat(rng *hx.Rng, k int) func(int, []*sched.Thread, *sched.Thread) int {
+	sleeps := 0
+	return func(_ int, en []*sched.Thread, last *sched.Thread) int {
+		if last != nil && last.Name == "closer" && last.Point == "c.sleep" {
+			sleeps++
+		}
+		if sleeps < k {
+			var cl []int
+			for i, t := range en {
+				if t.Name == "closer" {
+					cl = append(cl, i)
+				}
+			}
+			if len(cl) > 0 {
+				return cl[rng.Intn(len(cl))]
 			}
 		}
 		return rng.Intn(len(en))
@@ -298,9 +324,14 @@ func explore(args hx.Args, meta *hx.Meta) {
 	for i := 0; i < nrand; i++ {
 		c := genCfg(rng, prop, meta)
 		var strat func(int, []*sched.Thread, *sched.Thread) int
-		if (prop == "C06" || prop == "C05") && i%5 == 4 && len(c.Closers) > 0 && !c.Until {
+		if (prop == "C06" || prop == "C05") && i%5 == 4 && len(c.Closers) > 0 {
 			c.Starve = true
-			c.Strat, strat = "closer-first", closerFirstStrat(rng)
+			if c.Until {
+				// a channel that waits for pending writes, its sender stalled far beyond the bounded grace period
+				c.Strat, strat = "sender-stalled", stallStrat(rng, []int{3, 12, 25}[rng.Intn(3)])
+			} else {
+				c.Strat, strat = "closer-first", closerFirstStrat(rng)
+			}
 			meta.Count("strategy", c.Strat)
 			o := runCfg(c, strat)
 			emit(c, o)
